@@ -392,11 +392,6 @@ def part_fvalues(chk, c2m, model, d, quick):
                 cands.append(tuple(json.loads(l)))
     cands += G.gen_fvalue_cases(rng, 900 if quick else 12000)
     cands = list(dict.fromkeys(cands))
-    if not any('to a 64-bit unsigned type' in t for t in chk.fixed):
-        # fixes/C07-17.patch is not recorded as applied: its class of inputs is not generated (nothing else is skipped)
-        nb = len(cands)
-        cands = [c for c in cands if not G.is_f2u64_big(c)]
-        chk.dist('A3_candidates', 'skipped: floating value >= 2^63 to a 64-bit unsigned type (fixes/C07-17 not recorded as applied)', nb - len(cands))
     mres = ask(model, [G.fquery(c) for c in cands])
     old = ask(model, ['old ' + G.fquery(c) for c in cands])
     cases, expected, model_breaks = [], [], []
@@ -805,16 +800,27 @@ def abi_run(c2m, unit, d, tag, only=None, engines=ENGINES):
 
 
 def abi_bad_lines(ref, res):
-    """{shape index: {engine: [(call kind, gcc line, c2m line)]}}; index -1 = the run as a whole failed"""
+    """{shape index: {engine: [(call kind, gcc line, c2m line)]}}; lines are matched by (shape, call, seed), so a run that
+    ends early is charged to the call it died in only; index -1 = nothing usable was printed"""
+    def table(out):
+        t = {}
+        for l in out.split('\n')[:-1]:          # a line that is not terminated was cut off by the end of the run
+            w = l.split()
+            if len(w) == 4:
+                t[(w[0], w[1], w[2])] = l
+        return t
     bad = {}
-    rl = ref[1].split('\n')
+    rt = table(ref[1])
     for en, (rc, out, err) in sorted(res.items()):
-        ol = out.split('\n')
-        for i, a in enumerate(rl):
-            b = ol[i] if i < len(ol) else '<missing>'
-            if a != b and a:
-                w = a.split()
-                bad.setdefault(int(w[0]), {}).setdefault(en, []).append((w[1], a, b))
+        ot = table(out)
+        for key, a in rt.items():
+            b = ot.get(key)
+            if b is None:
+                bad.setdefault(int(key[0]), {}).setdefault(en, []).append(
+                    (key[1], a, '<no output: the run ended here with rc=%d %s>' % (rc, err.strip().split('\n')[-1][:120] if err.strip() else '')))
+                break
+            if a != b:
+                bad.setdefault(int(key[0]), {}).setdefault(en, []).append((key[1], a, b))
         if rc != ref[0] and not any(en in v for v in bad.values()):
             bad.setdefault(-1, {}).setdefault(en, []).append(('exit', 'rc=%d' % ref[0], 'rc=%d %s' % (rc, err.strip()[-160:])))
     return bad
